@@ -4,12 +4,20 @@
    [coalesce], and the meaning of the generated statements [exec].  Definitions only; theorems are in
    proofs/IrFragProof.v.  The tie to the real generator (to_frag, print_frag) is model/IrFragPrint.v.
 
-   Fragment: whitespace, text, string expressions (with errors), elements incl. void ones with constant,
-   boolean-constant, string-expression, boolean-expression, class-expression and conditional attributes, raw
-   elements, doctype, HTML comments, Go comments, raw Go code, if/else-if/else, switch, for, calls (without
-   blocks) of other templates of the file.  Go expressions are opaque: everything is parametric in the oracles
-   of Section Sem (any expression semantics).  Results carry the output, the evaluation trace and the error
-   position; nothing runs after an error (the generated `if templ_7745c5c3_Err != nil { return ... }`). *)
+   Fragment: whitespace, text, string expressions (with errors), elements incl. void ones, raw elements, script
+   elements with {{ }} parts, doctype, HTML comments, Go comments, raw Go code, if/else-if/else, switch, for,
+   component calls with and without child blocks (templates of the file, hand-written components as opaque
+   behaviours), the { children... } slot; attributes: constant, boolean-constant, boolean-expression, conditional,
+   spread, and expression attributes of every sink (default, URL, style, on* script, class list).
+   Go expressions are opaque: everything is parametric in the oracles of Section Sem (any expression semantics).
+   Results carry the output, the evaluation trace and the error position; nothing runs after an error (the
+   generated `if templ_7745c5c3_Err != nil { return ... }`).
+
+   Children.  A child block is a lexical closure: its body, the environment and the children of the place where
+   it was written.  A call hands its block to the callee directly.  In the generated code the hand-over goes
+   through the context value (templ.WithChildren around the call, templ.GetChildren + templ.ClearChildren on entry
+   of a generated template, `ctx = templ.ClearChildren(ctx)` after a block call); proofs/IrFragDenoteProof.v
+   proves that the shared-slot semantics of spec/Denote.v coincides with this lexical one on the fragment. *)
 From Coq.Strings Require Import Byte String.
 From Coq Require Import List Arith NArith Bool.
 Import ListNotations.
@@ -22,8 +30,13 @@ Inductive fattr :=
 | FConst (n v : bytes)                         (* title="v" *)
 | FBoolExpr (n : bytes) (e : expr)             (* disabled?={ e } *)
 | FExpr (n : bytes) (e : expr)                 (* title={ e }  (default sink: JoinStringErrs + EscapeString) *)
+| FUrl (n : bytes) (e : expr)                  (* <a href={ e }>, <form action={ e }>: templ.SafeURL, escaped *)
+| FStyle (n : bytes) (e : expr)                (* style={ e }: SanitizeStyleAttributeValues, written as returned *)
+| FScript (n : bytes) (e : expr)               (* onclick={ e }: hoisted RenderScriptItems, then e.Call *)
+| FSpread (e : expr)                           (* { e... }: templ.RenderAttributes *)
 | FClass (n : bytes) (e : expr)                (* class={ e }: hoisted by writeAttributesCSS *)
 | FCond (e : expr) (th el : list fattr).       (* if e { ... } else { ... } *)
+Inductive jpart := JText (v : bytes) | JGo (e : expr) (tr : bytes) (inside : bool).   (* <script> contents: text, {{ e }} + trailing text *)
 
 Inductive nd :=
 | Ws
@@ -31,6 +44,7 @@ Inductive nd :=
 | Str (e : expr) (t : trailing)
 | Elem (name : bytes) (block void : bool) (attrs : list fattr) (ch : list nd) (t : trailing)
 | Raw (name : bytes) (attrs : list fattr) (c : bytes)
+| Script (attrs : list fattr) (parts : list jpart)
 | Doc (v : bytes)
 | Comment (c : bytes)
 | GoComment
@@ -38,23 +52,31 @@ Inductive nd :=
 | If (c : expr) (th : list nd) (elifs : list (expr * list nd)) (haselse : bool) (el : list nd)
 | Switch (e : expr) (cases : list (expr * list nd))
 | For (e : expr) (body : list nd)
-| Call (e : expr).
+| Call (e : expr)                              (* @e  /  {! e } *)
+| CallB (e : expr) (ch : list nd)              (* @e { ch } *)
+| Children.                                    (* { children... } *)
 
 (* ---------- generated statements ---------- *)
+Inductive sink := SkDefault | SkUrl | SkStyle | SkScript.
 Inductive stmt :=
 | SLit (s : bytes)                             (* part of a templruntime.WriteString literal *)
 | SExpr (e : expr)                             (* string expression node *)
-| SAttrV (elem n : bytes) (e : expr)           (* expression attribute value, default sink *)
+| SAttrV (k : sink) (elem n : bytes) (e : expr) (* expression attribute value; the sink is chosen from (elem, n) *)
+| SSpread (e : expr)                           (* templ.RenderAttributes(ctx, buf, e) *)
 | SClassHoist (e : expr)                       (* var v = []any{e}; RenderCSSItems(ctx, buf, v...) *)
 | SClassUse (e : expr)                         (* templ.CSSClasses(v).String(), escaped *)
+| SScriptHoist (es : list expr)                (* templ.RenderScriptItems(ctx, buf, e1, e2, ...) *)
+| SJs (inside : bool) (e : expr)               (* ScriptContentInside/OutsideStringLiteral(e) *)
 | SGo (e : expr)                               (* raw Go code *)
 | SIf (c : expr) (th : list stmt) (elifs : list (expr * list stmt)) (haselse : bool) (el : list stmt)
 | SSwitch (e : expr) (cases : list (expr * list stmt))
 | SFor (e : expr) (body : list stmt)
-| SCall (e : expr).                            (* e.Render(ctx, buffer) *)
+| SCall (e : expr)                             (* e.Render(ctx, buffer) *)
+| SCallB (e : expr) (body : list stmt)         (* v := GeneratedTemplate(func ... body); e.Render(templ.WithChildren(ctx, v), buffer); ctx = templ.ClearChildren(ctx) *)
+| SChildren.                                   (* the children variable .Render(ctx, buffer) *)
 
 (* ---------- results: output, evaluation trace, error position ---------- *)
-Inductive evk := KStr | KBool | KFor | KSwitch | KCall | KGo | KClass.
+Inductive evk := KStr | KBool | KFor | KSwitch | KCall | KGo | KClass | KUrl | KStyle | KScript | KSpread | KJs.
 Notation event := (evk * expr)%type.
 Notation epos := (N * N)%type.
 Notation res := (bytes * list event * option epos)%type.
@@ -102,23 +124,91 @@ Definition trailer (n : nd) (next : option nd) : bytes :=
   | Some SpNone | None => []
   | Some _ => if inline (Some n) && inline next then [x20] else [] end.
 
-Section Sem.
-Variable E : Type.                                  (* environments: argument values, loop variables *)
-Variable escape : bytes -> bytes.                   (* html.EscapeString / templ.EscapeString *)
-Variable eval_str : E -> expr -> option bytes.      (* templ.JoinStringErrs(e): None = the expression returned an error *)
-Variable eval_bool : E -> expr -> bool.
-Variable eval_for : E -> expr -> list E.            (* one environment per iteration *)
-Variable eval_sw : E -> expr -> nat.                (* index of the selected case; >= number of cases: none *)
-Variable eval_class : E -> expr -> bytes.           (* templ.CSSClasses(items).String() *)
-Variable callee : expr -> bytes.                    (* name of the template a call expression names *)
-Variable call_env : E -> expr -> E.                 (* the callee's environment: its parameters bound to the arguments *)
-Variable tc : bool.                                 (* whether the trace records the evaluation of class expressions *)
+(* ---------- the hoisted attribute kinds ---------- *)
+Fixpoint class_exprs (a : fattr) : list expr :=
+  match a with
+  | FClass _ e => [e]
+  | FCond _ th el => flat_map class_exprs th ++ flat_map class_exprs el
+  | _ => [] end.
+Fixpoint script_exprs (a : fattr) : list expr :=
+  match a with
+  | FScript _ e => [e]
+  | FCond _ th el => flat_map script_exprs th ++ flat_map script_exprs el
+  | _ => [] end.
 
-Definition str_val (env : E) (e : expr) : res :=
-  match eval_str env e with
-  | Some s => (escape s, [(KStr, e)], None)
-  | None => ([], [(KStr, e)], Some (epos_of e)) end.
+(* what a called component is: a template of the file, or a hand-written component as an opaque behaviour *)
+Inductive ckind :=
+| KTempl (name : bytes)      (* generated template of the file *)
+| KWrap (o c : bytes)        (* writes o, renders the children it was given, writes c *)
+| KOpaque (s : bytes)        (* writes s and never looks at its children (ignore(), templ.Raw(s)) *)
+| KNop                       (* templ.NopComponent *)
+| KUnknown.
+
+(* the expression semantics: everything below is parametric in these oracles *)
+Record oracles (E : Type) := Oracles {          (* E: environments - argument values, loop variables *)
+  o_escape : bytes -> bytes;                    (* html.EscapeString / templ.EscapeString *)
+  o_str : E -> expr -> option bytes;            (* templ.JoinStringErrs(e): None = the expression returned an error *)
+  o_bool : E -> expr -> bool;
+  o_for : E -> expr -> list E;                  (* one environment per iteration *)
+  o_sw : E -> expr -> nat;                      (* index of the selected case; >= number of cases: none *)
+  o_class : E -> expr -> bytes;                 (* templ.CSSClasses(items).String() *)
+  o_css_defs : E -> expr -> bytes;              (* what RenderCSSItems writes for the items (style elements, once per context: C12) *)
+  o_url : E -> expr -> bytes;                   (* string(templ.SafeURL value) *)
+  o_style : E -> expr -> option bytes;          (* templruntime.SanitizeStyleAttributeValues(e): already escaped; None = error *)
+  o_script_call : E -> expr -> bytes;           (* templ.ComponentScript value .Call *)
+  o_script_defs : E -> list expr -> bytes;      (* what RenderScriptItems writes for the scripts (once per context: C12) *)
+  o_spread : E -> expr -> bytes;                (* what templ.RenderAttributes writes for the map (C01) *)
+  o_js : E -> bool -> expr -> option bytes;     (* templruntime.ScriptContentInside/OutsideStringLiteral(e) (C03); None = error *)
+  o_comp : expr -> ckind;                       (* which component a call expression names *)
+  o_call_env : E -> expr -> E                   (* the callee's environment: its parameters bound to the arguments *)
+}.
+Arguments o_escape {E}. Arguments o_str {E}. Arguments o_bool {E}. Arguments o_for {E}. Arguments o_sw {E}.
+Arguments o_class {E}. Arguments o_css_defs {E}. Arguments o_url {E}. Arguments o_style {E}. Arguments o_script_call {E}.
+Arguments o_script_defs {E}. Arguments o_spread {E}. Arguments o_js {E}. Arguments o_comp {E}. Arguments o_call_env {E}.
+
+Section Sem.
+Variable E : Type.
+Variable orc : oracles E.
+Variable tc : bool.                                 (* whether the trace records the HOISTED evaluations: class lists, and the
+                                                       evaluation of on* expressions for RenderScriptItems *)
+Notation escape := (o_escape orc).
+Notation eval_str := (o_str orc).
+Notation eval_bool := (o_bool orc).
+Notation eval_for := (o_for orc).
+Notation eval_sw := (o_sw orc).
+Notation eval_class := (o_class orc).
+Notation eval_css_defs := (o_css_defs orc).
+Notation eval_url := (o_url orc).
+Notation eval_style := (o_style orc).
+Notation eval_script_call := (o_script_call orc).
+Notation eval_script_defs := (o_script_defs orc).
+Notation eval_spread := (o_spread orc).
+Notation eval_js := (o_js orc).
+Notation comp_of := (o_comp orc).
+Notation call_env := (o_call_env orc).
+
+(* child blocks: lexical closures *)
+Inductive dblock := DBlk (body : list nd) (cap : E) (kids : option dblock).
+Inductive xblock := XBlk (body : list stmt) (cap : E) (kids : option xblock).
+
+Definition val_or_err (k : evk) (e : expr) (v : option bytes) : res :=
+  match v with
+  | Some s => (s, [(k, e)], None)
+  | None => ([], [(k, e)], Some (epos_of e)) end.
+Definition str_val (env : E) (e : expr) : res := val_or_err KStr e (option_map escape (eval_str env e)).
 Definition class_ev (e : expr) : list event := if tc then [(KClass, e)] else [].
+Definition hoist_ev (es : list expr) : list event := if tc then map (fun e => (KScript, e)) es else [].
+(* the value of an expression attribute, by sink *)
+Definition sink_val (k : sink) (env : E) (e : expr) : res :=
+  match k with
+  | SkDefault => str_val env e
+  | SkUrl => (escape (eval_url env e), [(KUrl, e)], None)
+  | SkStyle => val_or_err KStyle e (eval_style env e)
+  | SkScript => (eval_script_call env e, [(KScript, e)], None)
+  end.
+Definition js_val (env : E) (inside : bool) (e : expr) : res := val_or_err KJs e (eval_js env inside e).
+Definition script_defs (env : E) (es : list expr) : res :=
+  match es with [] => unit_r | _ => lit (eval_script_defs env es) end.
 
 Definition chain {B} (env : E) (f : B -> res) : list (expr * B) -> res -> res :=
   fix go (l : list (expr * B)) (el : res) : res :=
@@ -133,90 +223,130 @@ Definition pick {B} (f : B -> res) : list (expr * B) -> nat -> res :=
 
 (* ---------- specification: what the template denotes ---------- *)
 Definition attr_open (n : bytes) : bytes := [x20] ++ escape n ++ [x3d; x22].
+Definition expr_attr (n : bytes) (v : res) : res := andthen (lit (attr_open n)) (andthen v (lit [x22])).
 Fixpoint dattr (env : E) (a : fattr) : res :=
   match a with
   | FBoolConst n => lit ([x20] ++ escape n)
   | FConst n v => lit (attr_open n ++ escape v ++ [x22])
   | FBoolExpr n e => andthen (evt KBool e) (if eval_bool env e then lit ([x20] ++ escape n) else unit_r)
-  | FExpr n e => andthen (lit (attr_open n)) (andthen (str_val env e) (lit [x22]))
-  | FClass n e => andthen (lit (attr_open n)) (andthen (escape (eval_class env e), class_ev e, None) (lit [x22]))
+  | FExpr n e => expr_attr n (sink_val SkDefault env e)
+  | FUrl n e => expr_attr n (sink_val SkUrl env e)
+  | FStyle n e => expr_attr n (sink_val SkStyle env e)
+  | FScript n e => expr_attr n (sink_val SkScript env e)
+  | FSpread e => (eval_spread env e, [(KSpread, e)], None)
+  | FClass n e => expr_attr n (escape (eval_class env e), class_ev e, None)
   | FCond e th el => andthen (evt KBool e) (if eval_bool env e then seq_list (dattr env) th else seq_list (dattr env) el)
   end.
 Definition dattrs (env : E) (l : list fattr) : res := seq_list (dattr env) l.
 Definition open_tag (name : bytes) : bytes := [x3c] ++ escape name.
 Definition close_tag (name : bytes) : bytes := [x3c; x2f] ++ escape name ++ [x3e].
+(* in front of an element: the definitions its class lists and scripts need (what they are is C12's subject) *)
+Definition css_defs (env : E) (attrs : list fattr) : res :=
+  seq_list (fun e => lit (eval_css_defs env e)) (flat_map class_exprs attrs).
+Definition scripts_defs (env : E) (attrs : list fattr) : res := script_defs env (flat_map script_exprs attrs).
+Definition dpart (env : E) (p : jpart) : res :=
+  match p with
+  | JText v => lit v
+  | JGo e tr inside => andthen (js_val env inside e) (lit tr) end.
 
 Section WithCall.
-Variable call : E -> expr -> res.                   (* what a call renders (the callee's body at smaller fuel) *)
+Variable dcall : E -> expr -> option dblock -> res.   (* what a call renders, given the block it was handed *)
+Variable dblk : option dblock -> res.                 (* what a child block renders *)
 
-Fixpoint denote (env : E) (n : nd) (next : option nd) {struct n} : res :=
+Fixpoint denote (env : E) (kids : option dblock) (n : nd) (next : option nd) {struct n} : res :=
   andthen
    (match n with
     | Ws => lit [x20]
     | Text v _ => lit v
     | Str e _ => str_val env e
     | Elem name _ void attrs ch _ =>
-        andthen (lit (open_tag name)) (andthen (dattrs env attrs) (andthen (lit [x3e])
+        andthen (css_defs env attrs) (andthen (scripts_defs env attrs)
+        (andthen (lit (open_tag name)) (andthen (dattrs env attrs) (andthen (lit [x3e])
           (if void && is_nil ch then unit_r
-           else andthen (seq_nodes (fun c nx => denote env c nx) ch None) (lit (close_tag name)))))
+           else andthen (seq_nodes (fun c nx => denote env kids c nx) ch None) (lit (close_tag name)))))))
     | Raw name attrs c =>
-        andthen (lit (open_tag name)) (andthen (dattrs env attrs) (lit ([x3e] ++ c ++ close_tag name)))
+        andthen (scripts_defs env attrs)
+        (andthen (lit (open_tag name)) (andthen (dattrs env attrs) (lit ([x3e] ++ c ++ close_tag name))))
+    | Script attrs parts =>
+        andthen (scripts_defs env attrs)
+        (andthen (lit (open_tag (bs "script"))) (andthen (dattrs env attrs) (andthen (lit [x3e])
+          (andthen (seq_list (dpart env) parts) (lit (close_tag (bs "script")))))))
     | Doc v => lit (bs "<!doctype " ++ v ++ [x3e])
     | Comment c => lit (bs "<!--" ++ c ++ bs "-->")
     | GoComment => unit_r
     | GoCode e => evt KGo e
     | If c th elifs _ el =>
         andthen (evt KBool c)
-          (if eval_bool env c then seq_nodes (fun c nx => denote env c nx) th next
-           else chain env (fun b => seq_nodes (fun c nx => denote env c nx) b next) elifs
-                      (seq_nodes (fun c nx => denote env c nx) el next))
+          (if eval_bool env c then seq_nodes (fun c nx => denote env kids c nx) th next
+           else chain env (fun b => seq_nodes (fun c nx => denote env kids c nx) b next) elifs
+                      (seq_nodes (fun c nx => denote env kids c nx) el next))
     | Switch e cases =>
-        andthen (evt KSwitch e) (pick (fun b => seq_nodes (fun c nx => denote env c nx) b next) cases (eval_sw env e))
+        andthen (evt KSwitch e) (pick (fun b => seq_nodes (fun c nx => denote env kids c nx) b next) cases (eval_sw env e))
     | For e body =>
-        andthen (evt KFor e) (seq_list (fun env' => seq_nodes (fun c nx => denote env' c nx) body next) (eval_for env e))
-    | Call e => andthen (evt KCall e) (call env e)
+        andthen (evt KFor e) (seq_list (fun env' => seq_nodes (fun c nx => denote env' kids c nx) body next) (eval_for env e))
+    | Call e => andthen (evt KCall e) (dcall env e None)
+    | CallB e ch => andthen (evt KCall e) (dcall env e (Some (DBlk ch env kids)))
+    | Children => dblk kids
     end)
    (lit (trailer n next)).
-Definition denotes (env : E) (l : list nd) (next : option nd) : res := seq_nodes (fun c nx => denote env c nx) l next.
+Definition denotes (env : E) (kids : option dblock) (l : list nd) (next : option nd) : res :=
+  seq_nodes (fun c nx => denote env kids c nx) l next.
+End WithCall.
 
 (* ---------- meaning of the generated statements ---------- *)
-Fixpoint exec1 (env : E) (s : stmt) {struct s} : res :=
+Section WithCallX.
+Variable xcall : E -> expr -> option xblock -> res.
+Variable xblk : option xblock -> res.
+Fixpoint exec1 (env : E) (kids : option xblock) (s : stmt) {struct s} : res :=
   match s with
   | SLit a => lit a
   | SExpr e => str_val env e
-  | SAttrV _ _ e => str_val env e
-  | SClassHoist e => ([], class_ev e, None)
+  | SAttrV k _ _ e => sink_val k env e
+  | SSpread e => (eval_spread env e, [(KSpread, e)], None)
+  | SClassHoist e => (eval_css_defs env e, class_ev e, None)
   | SClassUse e => lit (escape (eval_class env e))
+  | SScriptHoist es => (eval_script_defs env es, hoist_ev es, None)
+  | SJs inside e => js_val env inside e
   | SGo e => evt KGo e
   | SIf c th elifs _ el =>
       andthen (evt KBool c)
-        (if eval_bool env c then seq_list (fun s => exec1 env s) th
-         else chain env (seq_list (fun s => exec1 env s)) elifs (seq_list (fun s => exec1 env s) el))
-  | SSwitch e cases => andthen (evt KSwitch e) (pick (seq_list (fun s => exec1 env s)) cases (eval_sw env e))
-  | SFor e b => andthen (evt KFor e) (seq_list (fun env' => seq_list (fun s => exec1 env' s) b) (eval_for env e))
-  | SCall e => andthen (evt KCall e) (call env e)
+        (if eval_bool env c then seq_list (fun s => exec1 env kids s) th
+         else chain env (seq_list (fun s => exec1 env kids s)) elifs (seq_list (fun s => exec1 env kids s) el))
+  | SSwitch e cases => andthen (evt KSwitch e) (pick (seq_list (fun s => exec1 env kids s)) cases (eval_sw env e))
+  | SFor e b => andthen (evt KFor e) (seq_list (fun env' => seq_list (fun s => exec1 env' kids s) b) (eval_for env e))
+  | SCall e => andthen (evt KCall e) (xcall env e None)
+  | SCallB e b => andthen (evt KCall e) (xcall env e (Some (XBlk b env kids)))
+  | SChildren => xblk kids
   end.
-Definition exec (env : E) (p : list stmt) : res := seq_list (fun s => exec1 env s) p.
-End WithCall.
+Definition exec (env : E) (kids : option xblock) (p : list stmt) : res := seq_list (fun s => exec1 env kids s) p.
+End WithCallX.
 
 (* ---------- the generator: statements with literal pieces ---------- *)
 (* writeAttributesCSS: class expressions, also those under conditional attributes, are evaluated in front of the element *)
-Fixpoint hoist (a : fattr) : list stmt :=
-  match a with
-  | FClass _ e => [SClassHoist e]
-  | FCond _ th el => flat_map hoist th ++ flat_map hoist el
-  | _ => [] end.
+Definition hoist (a : fattr) : list stmt := map SClassHoist (class_exprs a).
+(* writeElementScript: one RenderScriptItems call over every on* expression of the element, also those under conditionals *)
+Definition ghoist_scripts (attrs : list fattr) : list stmt :=
+  match flat_map script_exprs attrs with [] => [] | es => [SScriptHoist es] end.
+Definition gexpr_attr (n : bytes) (v : stmt) : list stmt := [SLit (attr_open n); v; SLit [x22]].
 Fixpoint gattr (elem : bytes) (a : fattr) : list stmt :=
   match a with
   | FBoolConst n => [SLit ([x20] ++ escape n)]
   | FConst n v => [SLit (attr_open n ++ escape v ++ [x22])]
   | FBoolExpr n e => [SIf e [SLit ([x20] ++ escape n)] [] false []]
-  | FExpr n e => [SLit (attr_open n); SAttrV elem n e; SLit [x22]]
-  | FClass n e => [SLit (attr_open n); SClassUse e; SLit [x22]]
+  | FExpr n e => gexpr_attr n (SAttrV SkDefault elem n e)
+  | FUrl n e => gexpr_attr n (SAttrV SkUrl elem n e)
+  | FStyle n e => gexpr_attr n (SAttrV SkStyle elem n e)
+  | FScript n e => gexpr_attr n (SAttrV SkScript elem n e)
+  | FSpread e => [SSpread e]
+  | FClass n e => gexpr_attr n (SClassUse e)
   | FCond e th el => [SIf e (flat_map (gattr elem) th) [] (negb (is_nil el)) (flat_map (gattr elem) el)]
   end.
 Definition gattrs (elem : bytes) (l : list fattr) : list stmt := flat_map (gattr elem) l.
 Definition glit (s : bytes) : list stmt := match s with [] => [] | _ => [SLit s] end.
+Definition gpart (p : jpart) : list stmt :=
+  match p with
+  | JText v => glit v
+  | JGo e tr inside => SJs inside e :: glit tr end.
 
 Fixpoint gen (n : nd) (next : option nd) {struct n} : list stmt :=
   (match n with
@@ -224,9 +354,13 @@ Fixpoint gen (n : nd) (next : option nd) {struct n} : list stmt :=
    | Text v _ => [SLit v]
    | Str e _ => [SExpr e]
    | Elem name _ void attrs ch _ =>
-       flat_map hoist attrs ++ [SLit (open_tag name)] ++ gattrs name attrs ++ [SLit [x3e]] ++
+       flat_map hoist attrs ++ ghoist_scripts attrs ++ [SLit (open_tag name)] ++ gattrs name attrs ++ [SLit [x3e]] ++
        (if void && is_nil ch then [] else gen_nodes gen ch None ++ [SLit (close_tag name)])
-   | Raw name attrs c => [SLit (open_tag name)] ++ gattrs name attrs ++ [SLit [x3e]; SLit c; SLit (close_tag name)]
+   | Raw name attrs c =>
+       ghoist_scripts attrs ++ [SLit (open_tag name)] ++ gattrs name attrs ++ [SLit [x3e]; SLit c; SLit (close_tag name)]
+   | Script attrs parts =>
+       ghoist_scripts attrs ++ [SLit (open_tag (bs "script"))] ++ gattrs (bs "script") attrs ++ [SLit [x3e]] ++
+       flat_map gpart parts ++ [SLit (close_tag (bs "script"))]
    | Doc v => [SLit (bs "<!doctype " ++ v ++ [x3e])]
    | Comment c => [SLit (bs "<!--"); SLit c; SLit (bs "-->")]
    | GoComment => []
@@ -236,6 +370,8 @@ Fixpoint gen (n : nd) (next : option nd) {struct n} : list stmt :=
    | Switch e cases => [SSwitch e (map (fun p => let '(c', b) := p in (c', gen_nodes gen b next)) cases)]
    | For e body => [SFor e (gen_nodes gen body next)]
    | Call e => [SCall e]
+   | CallB e ch => [SCallB e (gen_nodes gen ch None)]
+   | Children => [SChildren]
    end) ++ glit (trailer n next).
 Definition gens (l : list nd) (next : option nd) : list stmt := gen_nodes gen l next.
 
@@ -250,50 +386,100 @@ Fixpoint cst (s : stmt) : stmt :=
       SIf c (coal_with cst th) (map (fun p => let '(c', b) := p in (c', coal_with cst b)) elifs) he (coal_with cst el)
   | SSwitch e cases => SSwitch e (map (fun p => let '(c', b) := p in (c', coal_with cst b)) cases)
   | SFor e b => SFor e (coal_with cst b)
+  | SCallB e b => SCallB e (coal_with cst b)
   | x => x end.
 Definition coalesce (p : list stmt) : list stmt := coal_with cst p.
 
-(* ---------- files: a table of templates; calls recurse on fuel ---------- *)
-Fixpoint call_x (tbl : list (bytes * list stmt)) (fuel : nat) (env : E) (e : expr) {struct fuel} : res :=
+(* ---------- files: a table of templates; calls and child blocks recurse on fuel ---------- *)
+Fixpoint call_x (tbl : list (bytes * list stmt)) (fuel : nat) (env : E) (e : expr) (blk : option xblock) {struct fuel} : res :=
   match fuel with
   | O => fail0
-  | S f => match find tbl (callee e) with
-           | Some body => exec (call_x tbl f) (call_env env e) body
-           | None => fail0 end
+  | S f =>
+      match comp_of e with
+      | KTempl name => match find tbl name with
+                       | Some body => exec (call_x tbl f) (blk_x tbl f) (call_env env e) blk body   (* the callee takes the block as its children *)
+                       | None => fail0 end
+      | KWrap o c => andthen (lit o) (andthen (blk_x tbl f blk) (lit c))
+      | KOpaque s => lit s
+      | KNop => unit_r
+      | KUnknown => fail0
+      end
+  end
+with blk_x (tbl : list (bytes * list stmt)) (fuel : nat) (blk : option xblock) {struct fuel} : res :=
+  match fuel with
+  | O => match blk with None => unit_r | Some _ => fail0 end
+  | S f => match blk with
+           | None => unit_r
+           | Some (XBlk body cap k) => exec (call_x tbl f) (blk_x tbl f) cap k body   (* lexical: captured environment and children *)
+           end
   end.
-Definition exec_f (tbl : list (bytes * list stmt)) (fuel : nat) (env : E) (p : list stmt) : res :=
-  exec (call_x tbl fuel) env p.
-Fixpoint call_d (tbl : list (bytes * list nd)) (fuel : nat) (env : E) (e : expr) {struct fuel} : res :=
+Definition exec_f (tbl : list (bytes * list stmt)) (fuel : nat) (env : E) (kids : option xblock) (p : list stmt) : res :=
+  exec (call_x tbl fuel) (blk_x tbl fuel) env kids p.
+Fixpoint call_d (tbl : list (bytes * list nd)) (fuel : nat) (env : E) (e : expr) (blk : option dblock) {struct fuel} : res :=
   match fuel with
   | O => fail0
-  | S f => match find tbl (callee e) with
-           | Some body => denotes (call_d tbl f) (call_env env e) body None
-           | None => fail0 end
+  | S f =>
+      match comp_of e with
+      | KTempl name => match find tbl name with
+                       | Some body => denotes (call_d tbl f) (blk_d tbl f) (call_env env e) blk body None
+                       | None => fail0 end
+      | KWrap o c => andthen (lit o) (andthen (blk_d tbl f blk) (lit c))
+      | KOpaque s => lit s
+      | KNop => unit_r
+      | KUnknown => fail0
+      end
+  end
+with blk_d (tbl : list (bytes * list nd)) (fuel : nat) (blk : option dblock) {struct fuel} : res :=
+  match fuel with
+  | O => match blk with None => unit_r | Some _ => fail0 end
+  | S f => match blk with
+           | None => unit_r
+           | Some (DBlk body cap k) => denotes (call_d tbl f) (blk_d tbl f) cap k body None
+           end
   end.
-Definition denote_f (tbl : list (bytes * list nd)) (fuel : nat) (env : E) (l : list nd) (next : option nd) : res :=
-  denotes (call_d tbl fuel) env l next.
-(* the generated file: every template body generated and its literals merged *)
+Definition denote_f (tbl : list (bytes * list nd)) (fuel : nat) (env : E) (kids : option dblock) (l : list nd) (next : option nd) : res :=
+  denotes (call_d tbl fuel) (blk_d tbl fuel) env kids l next.
+(* the generated file: every template body generated (raw), and with its literals merged (compile) *)
+Definition compile_raw (tbl : list (bytes * list nd)) : list (bytes * list stmt) :=
+  map (fun p => let '(k, b) := p in (k, gens b None)) tbl.
 Definition compile (tbl : list (bytes * list nd)) : list (bytes * list stmt) :=
   map (fun p => let '(k, b) := p in (k, coalesce (gens b None))) tbl.
+(* the generated form of a child block *)
+Fixpoint compile_blk (b : dblock) : xblock :=
+  match b with
+  | DBlk body cap k => XBlk (coalesce (gens body None)) cap (match k with Some k' => Some (compile_blk k') | None => None end)
+  end.
 End Sem.
+Arguments DBlk {E}.
+Arguments XBlk {E}.
+Arguments exec1 {E}. Arguments exec {E}. Arguments denote {E}. Arguments denotes {E}. Arguments dattr {E}. Arguments dattrs {E}.
+Arguments sink_val {E}. Arguments str_val {E}. Arguments js_val {E}. Arguments chain {E} orc {B}. Arguments call_x {E}. Arguments blk_x {E}.
+Arguments call_d {E}. Arguments blk_d {E}. Arguments exec_f {E}. Arguments denote_f {E}. Arguments compile_blk {E}. Arguments expr_attr {E}.
+Arguments css_defs {E}. Arguments scripts_defs {E}. Arguments script_defs {E}. Arguments dpart {E}. Arguments attr_open {E}. Arguments open_tag {E}.
+Arguments close_tag {E}. Arguments gexpr_attr {E}.
+Arguments gen {E}. Arguments gens {E}. Arguments gattr {E}. Arguments gattrs {E}. Arguments compile {E}. Arguments compile_raw {E}.
 
-(* ---------- class expressions (the hoisted attribute kind) ---------- *)
-Fixpoint attr_has_class (a : fattr) : bool :=
+(* ---------- the hoisted kinds (class lists, on* scripts) ---------- *)
+Fixpoint attr_hoisted (a : fattr) : bool :=
   match a with
-  | FClass _ _ => true
-  | FCond _ th el => existsb attr_has_class th || existsb attr_has_class el
+  | FClass _ _ | FScript _ _ => true
+  | FCond _ th el => existsb attr_hoisted th || existsb attr_hoisted el
   | _ => false end.
 Definition cases_all {B} (f : B -> bool) (l : list (expr * B)) : bool := forallb (fun p => let '(_, b) := p in f b) l.
 Fixpoint hoist_free (n : nd) : bool :=
   match n with
-  | Elem _ _ _ attrs ch _ => negb (existsb attr_has_class attrs) && forallb hoist_free ch
-  | Raw _ attrs _ => negb (existsb attr_has_class attrs)
+  | Elem _ _ _ attrs ch _ => negb (existsb attr_hoisted attrs) && forallb hoist_free ch
+  | Raw _ attrs _ => negb (existsb attr_hoisted attrs)
+  | Script attrs _ => negb (existsb attr_hoisted attrs)
   | If _ th elifs _ el => forallb hoist_free th && cases_all (forallb hoist_free) elifs && forallb hoist_free el
   | Switch _ cases => cases_all (forallb hoist_free) cases
   | For _ body => forallb hoist_free body
+  | CallB _ ch => forallb hoist_free ch
   | _ => true end.
 Definition tbl_hoist_free (tbl : list (bytes * list nd)) : bool :=
   forallb (fun p => let '(_, b) := p in forallb hoist_free b) tbl.
+Fixpoint blk_hoist_free {E} (b : dblock E) : bool :=
+  match b with DBlk body _ k => forallb hoist_free body && match k with Some k' => blk_hoist_free k' | None => true end end.
 
 (* ---------- static markup: nodes without any Go expression, and the bytes they stand for ---------- *)
 Section Static.
@@ -301,8 +487,10 @@ Variable escape : bytes -> bytes.
 Definition static_attr (a : fattr) : option bytes :=
   match a with
   | FBoolConst n => Some ([x20] ++ escape n)
-  | FConst n v => Some (attr_open escape n ++ escape v ++ [x22])
+  | FConst n v => Some (([x20] ++ escape n ++ [x3d; x22]) ++ escape v ++ [x22])
   | _ => None end.
+Definition sopen (name : bytes) : bytes := [x3c] ++ escape name.
+Definition sclose (name : bytes) : bytes := [x3c; x2f] ++ escape name ++ [x3e].
 Fixpoint static_attrs (l : list fattr) : option bytes :=
   match l with
   | [] => Some []
@@ -322,11 +510,11 @@ Fixpoint static_node (n : nd) (next : option nd) {struct n} : option bytes :=
     | GoComment => Some []
     | Elem name _ void attrs ch _ =>
         match static_attrs attrs, static_nodes static_node ch None with
-        | Some a, Some c => Some (open_tag escape name ++ a ++ [x3e] ++ (if void && is_nil ch then [] else c ++ close_tag escape name))
+        | Some a, Some c => Some (sopen name ++ a ++ [x3e] ++ (if void && is_nil ch then [] else c ++ sclose name))
         | _, _ => None end
     | Raw name attrs c =>
         match static_attrs attrs with
-        | Some a => Some (open_tag escape name ++ a ++ [x3e] ++ c ++ close_tag escape name)
+        | Some a => Some (sopen name ++ a ++ [x3e] ++ c ++ sclose name)
         | None => None end
     | _ => None end).
 (* the bytes of a static node list: each node's bytes in source order, with the trailing-space rule between them *)
